@@ -693,7 +693,7 @@ def run(ck):
                     ck.ob('R8.6', base + ('#%d' % (i + 1) if i else ''), not bad, crate.loc(n),
                           'Debug output of `%s` is address- and hash-order-free' % t[:80] if not bad else
                           '`{:?}` of `%s` prints heap addresses or hash-ordered containers: text differs between runs' % t[:100], fn=fn['path'])
-    ck.floor('R8.6', n_dbg, 6, 'Debug-format sites outside logging/panics/Debug impls')
+    ck.floor('R8.6', n_dbg, 3, 'Debug-format sites outside logging/panics/Debug impls')
 
     # R8.5 statics
     n_static = 0
